@@ -90,8 +90,11 @@ def inventory(spec):
     kind = spec['kind']
     if kind in ('default', 'noop'):
         edge = [':ARG0', ':ARG1', ':ARG2', ':mod', ':op1', ':op2', ':op10', ':domain',
-                ':location', ':time', ':poss', ':part', ':rel', ':x', ':x2-op9', ':x2-op10', ':x2-op100']
-        attr = [':polarity', ':quant', ':value', ':name', ':op1', ':op2', ':mode', ':wiki', ':li', ':y1z12', ':y1z3']
+                ':location', ':time', ':poss', ':part', ':rel', ':x', ':x2-op9', ':x2-op10', ':x2-op100',
+                # numeric suffixes written with leading zeros: :op010 is ten, :op01 and :op1 tie
+                ':op01', ':op010', ':op20']
+        attr = [':polarity', ':quant', ':value', ':name', ':op1', ':op2', ':mode', ':wiki', ':li', ':y1z12', ':y1z3',
+                ':li07', ':li7', ':li010']
         return edge, attr
     if kind == 'amr':
         edge = [':ARG0', ':ARG1', ':ARG2', ':ARG3', ':mod', ':domain', ':op1', ':op2', ':op10',
